@@ -1250,7 +1250,7 @@ func (m *mon) breathing(idx int) {
 				return
 			}
 			if 4*len(s) <= cap(s) && cap(s) >= 64 {
-				c.Obs("breathing:set_at_a_quarter_of_its_capacity_or_less(cap>=64)", 1)
+				c.Obs("breathing:set_at_a_quarter_of_its_capacity_or_less(cap>=64; recorded only: whether storage is kept is up to the library)", 1)
 			}
 		}
 		c.Obs("breathing:drains_completed", 1)
